@@ -392,4 +392,34 @@ MUTATIONS = [
      'desc': 'power range converted back for the first SI entry only',
      'edits': [('gnpy/tools/yang_convert_utils.py', "    for si in json_data.get('SI', []):\n        if 'power_range_dict_db' in si:",
                 "    for si in json_data.get('SI', [])[:1]:\n        if 'power_range_dict_db' in si:")]},
+    {'id': 'c19-reverse-metrics-from-forward', 'props': ['C19'], 'tests': 'tests/test_path_computation_functions.py',
+     'desc': 'z-a metrics of a bidirectional request taken from the forward path',
+     'edits': [('gnpy/topology/request.py', "                'z-a-path-metric': path_metric(self.reversed_computed_path, self.path_request),",
+                "                'z-a-path-metric': path_metric(self.computed_path, self.path_request),")]},
+    {'id': 'c19-lowest-snr-is-mean', 'props': ['C19'], 'tests': 'tests/test_path_computation_functions.py',
+     'desc': 'lowest SNR metric reports the average',
+     'edits': [('gnpy/topology/request.py', "                    'accumulative-value': round(min(pth[-1].snr_01nm), 2)",
+                "                    'accumulative-value': round(mean(pth[-1].snr_01nm), 2)")]},
+    {'id': 'c19-aggregation-bandwidth', 'props': ['C19'], 'tests': 'tests/test_disjunction.py',
+     'desc': 'aggregated requests keep the bandwidth of one of them',
+     'edits': [('gnpy/topology/request.py', "                this_r.path_bandwidth += req.path_bandwidth\n", "")]},
+    {'id': 'c19-csv-pass-on-average', 'props': ['C19'], 'tests': 'tests/test_parser.py',
+     'desc': 'CSV pass flag computed on the average SNR instead of the worst channel',
+     'edits': [('gnpy/topology/request.py', "            values[pass_field] = rsnr_min >= minosnr if rsnr_min != '' else rsnr >= minosnr",
+                "            values[pass_field] = rsnr >= minosnr")]},
+    {'id': 'c19-csv-reverse-from-forward', 'props': ['C19'], 'tests': 'tests/test_parser.py',
+     'desc': 'CSV reverse-direction columns filled from the forward metrics (served requests)',
+     'edits': [('gnpy/topology/request.py', """            if 'z-a-path-metric' in path_properties.keys():
+                values.update(dict(zip(rev_path_metric_fields,
+                                       (_jsontopath_metric(path_properties['z-a-path-metric'])))))""",
+                """            if 'z-a-path-metric' in path_properties.keys():
+                values.update(dict(zip(rev_path_metric_fields,
+                                       (_jsontopath_metric(path_properties['path-metric'])))))""")]},
+    {'id': 'c19-transponder-mode-from-request-format', 'props': ['C19'], 'tests': 'tests/test_path_computation_functions.py',
+     'desc': 'blocked automatic-mode requests keep the mode of the request instead of the last explored one in the response',
+     'edits': [('gnpy/topology/request.py', """                    elif pathreq.blocking_reason in BLOCKING_NOMODE:
+                        pathreq.baud_rate = mode['baud_rate']
+                        pathreq.tsp_mode = mode['format']""", """                    elif pathreq.blocking_reason in BLOCKING_NOMODE:
+                        pathreq.baud_rate = mode['baud_rate']
+                        pathreq.tsp_mode = pathreq.tsp_mode""")]},
 ]
